@@ -9,6 +9,9 @@
 #include "parser/preprocessor.h"
 #include "value_scope.h"
 #include "sqfop.h"
+#ifdef SQFVM_RUNTIME_VERIF
+#include "verif_hooks.h"
+#endif // SQFVM_RUNTIME_VERIF
 
 #include <chrono>
 #include <atomic>
@@ -332,7 +335,11 @@ namespace sqf::runtime
             m_default_scope_key("default"),
             m_evaluate_halt(false),
             m_configuration(config),
+#ifdef SQFVM_RUNTIME_VERIF
+            m_runtime_timestamp(sqf::verif::now()),
+#else
             m_runtime_timestamp(std::chrono::system_clock::now()),
+#endif // SQFVM_RUNTIME_VERIF
             m_runtime_error(false),
             m_created_timestamp(m_runtime_timestamp),
             m_confighost(),
@@ -347,7 +354,11 @@ namespace sqf::runtime
         sqf::runtime::runtime::result execute(sqf::runtime::runtime::action action);
         sqf::runtime::runtime::runtime_conf& configuration() { return m_configuration; }
         std::chrono::system_clock::time_point runtime_timestamp() { return m_runtime_timestamp; }
+#ifdef SQFVM_RUNTIME_VERIF
+        void runtime_timestamp_reset() { m_runtime_timestamp = sqf::verif::now(); }
+#else
         void runtime_timestamp_reset() { m_runtime_timestamp = std::chrono::system_clock::now(); }
+#endif // SQFVM_RUNTIME_VERIF
 
         sqf::runtime::confighost& confighost() { return m_confighost; }
 
